@@ -74,7 +74,7 @@ def plan_for(pid, tier):
         "C03": [("rich", 20 if q else 200, 6), ("mergey", 10 if q else 100, 6), ("lean", 2 if q else 10, 3)],
         "C04": [("rich", 12 if q else 100, 6), ("stored", 6 if q else 50, 5), ("mergey", 8 if q else 50, 6), ("lean", 1 if q else 4, 3)],
         "C05": [("rich", 10 if q else 120, 9), ("stored", 6 if q else 50, 8), ("mergey", 20 if q else 200, 9), ("leanmerge", 1 if q else 5, 0)],
-        "C06": [("rich", 10 if q else 120, 10), ("mergey", 30 if q else 300, 10), ("leanmerge", 1 if q else 8, 0)],
+        "C06": [("rich", 8 if q else 120, 10), ("mergey", 24 if q else 300, 10), ("leancross", 1 if q else 6, 0), ("leanmerge", 0 if q else 8, 0)],
     }
     P["C07"] = [("rich", 16 if q else 150, 6), ("mergey", 10 if q else 100, 6), ("lean", 1 if q else 6, 3)]
     P["C11"] = [("readstress", 3 if q else 30, 4 if q else 6, "race")]
@@ -295,6 +295,10 @@ def run_life_check(pid, tier, seed, replay=None, pre=None):
         zxr = None
         for k, ent in enumerate(plan["profiles"]):
             prof, n, steps = ent[0], ent[1], ent[2]
+            if n == 0:
+                invocations.append((zx, []))
+                traces.append(None)
+                continue
             tp = sc.path("t-%s.ndjson" % prof)
             exe = zx
             if "race" in ent[3:]:
@@ -310,6 +314,9 @@ def run_life_check(pid, tier, seed, replay=None, pre=None):
         with open(allp, "wb") as out:
             for tp in traces:
                 n0 = nl
+                if tp is None:
+                    ranges.append((0, -1, (zx, [])))
+                    continue
                 with open(tp, "rb") as fh:
                     for line in fh:
                         if not (line.startswith(b'{"ev":') and line.rstrip().endswith(b"}")) or b":null" in line:
